@@ -29,6 +29,14 @@ def c12Step (line : String) : String :=
         (match r.1 with | some b => showBytes b | none => "nopage") ++ (if r.2 then " close" else " open")
       else "bad-op"
     | _, _ => "bad-op"
+  | ["errh", cw, head, code, h] =>
+    match head.toNat?, code.toNat?, hexOr h with
+    | some hd, some c, some m =>
+      if cw == "0" || cw == "1" then
+        let r := C12.h1ErrorReplyAfter (cw == "1") (if hd = 0 then none else some hd) c m
+        (match r.1 with | some b => showBytes b | none => "nopage") ++ (if r.2 then " close" else " open")
+      else "bad-op"
+    | _, _, _ => "bad-op"
   | ["esc", h] =>
     match hexOr h with
     | some m => showBytes (C12.htmlEscape m)
